@@ -3,6 +3,7 @@
 From Coq Require Import ZArith List Bool Lia.
 Import ListNotations.
 From XO Require Import Slots Strides BufOps BufOpsProofs Types Format LayoutProofs RoundTrip Update UpdateAt CExpr CExprProofs CSpec CSpecProofs Address Setter.
+From XO Require Import Update UpdateAt Alignment.
 Open Scope Z_scope.
 
 (* a validated setter stores at exactly the layout's address of the element, for all in-range (and
@@ -55,9 +56,15 @@ Proof. exact rd_wr_same. Qed.
 Theorem C07_slots_aligned : forall n, n <= slot n < n + 8 /\ slot n mod 8 = 0.
 Proof. exact slot_spec. Qed.
 
+(* ALIGNMENT relative to the object start: the offset of the element any field / index path denotes is a multiple of
+   8 for structs, arrays and strings and a multiple of the number's own size for numbers -- for every type, value,
+   depth and axis order; hence a typed access at (object start + offset) is as aligned as the object start *)
+Theorem C07_element_aligned_relative_to_the_object_start : forall p t v d st, path_off t v p = Some d -> sub_ty t p = Some st -> d mod al st = 0.
+Proof. exact path_off_aligned. Qed.
 Print Assumptions C07_setter_address.
 Print Assumptions C07_store_changes_exactly_the_element.
 Print Assumptions C07_value_read_back.
 Print Assumptions C07_slots_aligned.
 Print Assumptions C07_accessor_addresses_element.
 Print Assumptions C07_setter_is_assignment.
+Print Assumptions C07_element_aligned_relative_to_the_object_start.
